@@ -1232,27 +1232,44 @@ func c06CheckChunk(ctx *core.Ctx, k *c05Kind, col c05Col, f *c05File, cc parquet
 			break
 		}
 	}
+	type probeNF struct {
+		probe
+		nullsFirst bool
+	}
+	var both []probeNF
 	for _, pr := range probes {
+		both = append(both, probeNF{pr, false}, probeNF{pr, true})
+	}
+	for _, prn := range both {
+		pr := prn.probe
 		got := -1
-		pan := c05Recover(func() { got = parquet.Search(ci, k.value(pr.v), typ) })
-		d := detail(map[string]any{"probe": k.text(pr.v), "returned": got, "num_pages": len(pages), "first_page_with_value": pr.first, "claimed_order": view.order})
+		// nulls last is what Search uses; nulls first is the example of Find's doc comment
+		cmp := parquet.CompareNullsLast(typ.Compare)
+		if prn.nullsFirst {
+			cmp = parquet.CompareNullsFirst(typ.Compare)
+		}
+		pan := c05Recover(func() { got = parquet.Find(ci, k.value(pr.v), cmp) })
+		d := detail(map[string]any{"probe": k.text(pr.v), "nulls_first": prn.nullsFirst, "returned": got, "num_pages": len(pages), "first_page_with_value": pr.first, "claimed_order": view.order})
 		if pr.first >= 0 {
 			ctx.Hist("probe", "present")
 		} else {
 			ctx.Hist("probe", "absent")
 		}
 		cause := ""
+		if prn.nullsFirst {
+			cause = " nulls-first"
+		}
 		switch {
 		case f.skip[col.name]:
-			cause = " skip-page-bounds-zero-index"
+			cause += " skip-page-bounds-zero-index"
 		case short:
-			cause = " flba-null-page-index-short"
+			cause += " flba-null-page-index-short"
 		case hasNaNPage:
-			cause = " nan-page"
+			cause += " nan-page"
 		case byte9:
-			cause = " " + c05KeyBE128
+			cause += " " + c05KeyBE128
 		case k.isBytes() && pr.first >= 0 && c05TruncAllFF(pages[pr.first].vals, f.lim):
-			cause = " truncmax-all-ff-prefix"
+			cause += " truncmax-all-ff-prefix"
 		}
 		switch {
 		case pan != nil:
@@ -1260,7 +1277,7 @@ func c06CheckChunk(ctx *core.Ctx, k *c05Kind, col c05Col, f *c05File, cc parquet
 		case got < 0 || got > len(pages):
 			ctx.Fail("L1", "search-out-of-range"+cause, "Search returned an index outside 0..NumPages", d)
 		case pr.first >= 0 && got > pr.first:
-			ctx.Fail("L1", "missed-page"+cause, fmt.Sprintf("the value occurs in page %d but Search returned %d (NumPages=%d)", pr.first, got, len(pages)), d)
+			ctx.Fail("L1", "missed-page"+cause, fmt.Sprintf("the value occurs in page %d but Find returned %d (NumPages=%d)", pr.first, got, len(pages)), d)
 		case got < len(pages) && view.panicked == nil && got < len(view.min) && !short:
 			// the returned page's recorded bounds must contain the probe (NaN bounds contain everything: Compare is 0)
 			if view.nullPage[got] || (!k.isNaN(view.min[got]) && k.cmp(pr.v, view.min[got]) < 0) || (!k.isNaN(view.max[got]) && k.cmp(pr.v, view.max[got]) > 0) {
